@@ -471,12 +471,47 @@ func (e *Exec) contractCall(ins ssa.Instruction, key string, fc *FuncContract, s
 			e.invBumpIf(st, id, h.done)
 		}
 	}
-	for _, cl := range fc.Ensures {
+	// frame postconditions first: they rebuild the post-state memory the others talk about
+	structural := map[int]bool{}
+	for k, cl := range fc.Ensures {
+		env.polarity = polAssume
+		structural[k] = e.structuralFrame(cl.Expr, env, st, pre)
+	}
+	for k, cl := range fc.Ensures {
+		if structural[k] {
+			continue
+		}
 		env.polarity = polAssume
 		e.ctx.assume(Imp(st.pc, env.evalBool(cl.Expr)))
 	}
 	e.siteAsserts(ins, key, args, st, "after", res)
 	return res
+}
+
+// structuralFrame: a postcondition that is exactly  unchanged_except(X)  is not assumed as a
+// quantified hypothesis; the post-state memory of X's element type is rebuilt from the
+// pre-state memory with only X[0:len(X)] and storage allocated since forgotten - the same
+// statement, in a form that needs no instantiation.
+func (e *Exec) structuralFrame(x *SExpr, env *Env, st, pre *State) bool {
+	if x.Kind != SCall || len(x.Args) != 2 || x.Args[0].Kind != SIdent || x.Args[0].Name != "unchanged_except" {
+		return false
+	}
+	sv, ok := env.eval(x.Args[1]).(SliceV)
+	if !ok {
+		return false
+	}
+	lo, hi := sv.Ptr, AddNW(sv.Ptr, sv.Len)
+	for _, lf := range e.leafFamilies(sv.Elem, "elem:"+typeName(sv.Elem)) {
+		mo := e.ctx.family(pre, lf.key, lf.sort)
+		if e.ctx.family(st, lf.key, lf.sort) == mo {
+			continue
+		}
+		m := mo.Havoc("ue", lo, hi)
+		m = m.Havoc("new", pre.allocTop, ConstI(staticBase, Ref))
+		m = m.Havoc("newstatic", ConstI(staticBase*2, Ref), nil)
+		st.mems[lf.key] = m
+	}
+	return true
 }
 
 // havocSet forgets whole families.
